@@ -353,13 +353,23 @@ pub fn run(ctx: &Ctx) -> Evidence {
                     if m.state() != State::Running {
                         break;
                     }
-                    if c.modes >> 1 & 1 == 1 && e % 97 == 5 {
+                    if c.modes >> 1 & 1 == 1 && (e % 97 == 5 || (c.modes >> 3 & 1 == 1 && e % 7 == 2)) {
                         m.trigger_key_edge_interrupt();
                     }
                     // the continue key is documented as "Stopped -> Running" and nothing else: pressed at
                     // arbitrary edges of a running machine it must not disturb the sequencer
                     if c.modes >> 2 & 1 == 1 && (e as u64 + c.ram_seed) % 11 == 3 {
                         m.trigger_key_continue();
+                    }
+                    // "from reset": a CPU reset at an arbitrary edge (also inside an interrupt entry) must
+                    // put the sequencer on a well-formed path again
+                    if c.modes >> 3 & 1 == 1 && (e as u64 + (c.ram_seed >> 8)) % 41 == 17 {
+                        m.cpu_reset();
+                        m.bus_mut().write(0xF9, 1);
+                        let s = m.verif_snapshot();
+                        if broken.is_none() && (s.micro_address != 0 || s.instruction_register >> 4 != 0) {
+                            broken = Some(format!("program {} at edge {}: after a CPU reset the sequencer sits at micro-address {:03X} with {:02X} in the instruction register (reset must start the fetch path of page 0)", hex(&code), e, s.micro_address, s.instruction_register));
+                        }
                     }
                     m.trigger_clock_edge();
                     edges += 1;
